@@ -1219,22 +1219,6 @@ func (c *Client) readSlices() (message, topic []byte, err error) {
 		}
 	}
 
-	// flush big message if any
-	if c.bigMessage != nil {
-		remaining := c.bigMessage.Size
-		c.bigMessage = nil
-
-		err = c.discard(remaining)
-		if err != nil {
-			c.toOffline()
-			return nil, nil, err
-		}
-	}
-
-	// skip previous packet, if any
-	c.bufr.Discard(len(c.peek)) // no error guaranteed
-	c.peek = nil
-
 	// acknowledge previous packet, if any
 	if len(c.pendingAck) != 0 {
 		// BUG(pascaldekloe): Save errors from Persistence can cause
@@ -1257,6 +1241,22 @@ func (c *Client) readSlices() (message, topic []byte, err error) {
 
 		c.pendingAck = c.pendingAck[:0]
 	}
+
+	// flush big message if any
+	if c.bigMessage != nil {
+		remaining := c.bigMessage.Size
+		c.bigMessage = nil
+
+		err = c.discard(remaining)
+		if err != nil {
+			c.toOffline()
+			return nil, nil, err
+		}
+	}
+
+	// skip previous packet, if any
+	c.bufr.Discard(len(c.peek)) // no error guaranteed
+	c.peek = nil
 
 	// process packets until a PUBLISH appears
 	for {
